@@ -31,12 +31,14 @@ const (
 	QBuild                  // index: Build()
 	QIsFreshNumEdges        // index: NumEdges() (IsFresh is schedule dependent: executed, not compared)
 	QLocate                 // index: Iterator().LocatePoint / LocateCellID
+	QMisc                   // Loop/Polygon: Area, Centroid, TurningAngle, NumEdges, edges, Validate; index: shapes' reference points, End()/Prev walk
+	QBounds                 // Loop/Polygon: RectBound, CapBound, CellUnionBound
 	NumQKinds
 )
 
 var qNames = [...]string{"ContainsPoint", "ContainsCell", "IntersectsCell", "Contains", "Intersects",
 	"ContainingShapes", "ShapeContains", "Crossings", "CrossingsEdgeMap", "FindEdges", "Distance",
-	"IsDistanceLess", "IsConservativeDistance", "WalkCells", "RegionBound", "Build", "NumEdges", "Locate"}
+	"IsDistanceLess", "IsConservativeDistance", "WalkCells", "RegionBound", "Build", "NumEdges", "Locate", "Misc", "Bounds"}
 
 // target kinds
 const (
@@ -151,6 +153,19 @@ func (op *Op) String() string {
 		s += fmt.Sprintf(",reuse=q%d", op.Reuse)
 	}
 	return s + ")"
+}
+
+// orderMark separates the part of an answer that does not depend on the order in which a polygon
+// happens to store its loops from the part that does.
+const orderMark = uint64(0xFEEDFACECAFEBEEF)
+
+func orderIndependent(a Ans) Ans {
+	for i, w := range a {
+		if w == orderMark {
+			return a[:i]
+		}
+	}
+	return a
 }
 
 // Ans is an encoded answer; compared word for word.
@@ -367,6 +382,21 @@ func execQuery(world []*Obj, op *Op, qs *Queries) Ans {
 		q := eq(o, op, qs)
 		return Ans{b2u(targetCalls(op, world).consLE(q, op.Limit))}
 	case QWalk:
+		if op.Cross == 1 && o.Kind == OIndex {
+			// backwards, from End()
+			var a Ans
+			it := o.Index.End()
+			for it.Prev() {
+				a = append(a, uint64(it.CellID()))
+				if len(a) > 100000 {
+					break
+				}
+			}
+			for i, j := 0, len(a)-1; i < j; i, j = i+1, j-1 {
+				a[i], a[j] = a[j], a[i]
+			}
+			return a
+		}
 		return Ans(cellList(o.index()))
 	case QRegionBound:
 		r := o.Index.Region()
@@ -384,6 +414,70 @@ func execQuery(world []*Obj, op *Op, qs *Queries) Ans {
 	case QIsFreshNumEdges:
 		_ = o.Index.IsFresh()
 		return Ans{uint64(o.Index.NumEdges()), uint64(o.Index.Len())}
+	case QMisc:
+		switch o.Kind {
+		case OLoop:
+			l := o.Loop
+			c := l.Centroid()
+			a := Ans{math.Float64bits(l.Area()), math.Float64bits(c.X), math.Float64bits(c.Z), math.Float64bits(l.TurningAngle()), uint64(l.NumEdges()), b2u(l.IsNormalized()), b2u(l.ContainsOrigin()), b2u(l.Validate() == nil)}
+			for i := 0; i < l.NumEdges() && i < 6; i++ {
+				e := l.Edge(i)
+				a = append(a, math.Float64bits(e.V0.X)^math.Float64bits(e.V1.Y))
+			}
+			rp := l.ReferencePoint()
+			a = append(a, b2u(rp.Contained))
+			return a
+		case OPolygon:
+			p := o.Poly
+			// order-independent part first: a polygon inverted twice may keep its loops in a
+			// different order than a fresh one, which changes enumeration order and the order of
+			// floating-point sums, not the region
+			a := Ans{uint64(p.NumEdges()), uint64(p.NumLoops()), b2u(p.Validate() == nil), b2u(p.IsEmpty()), b2u(p.IsFull()), b2u(p.ReferencePoint().Contained)}
+			var sizes []uint64
+			for i := 0; i < p.NumLoops(); i++ {
+				sizes = append(sizes, uint64(p.Loop(i).NumVertices())<<1|b2u(p.Loop(i).IsHole()))
+			}
+			sortU64(sizes)
+			a = append(a, sizes...)
+			a = append(a, orderMark)
+			c := p.Centroid()
+			a = append(a, math.Float64bits(p.Area()), math.Float64bits(c.X), math.Float64bits(c.Z))
+			for i := 0; i < p.NumLoops() && i < 8; i++ {
+				pa, ok := p.Parent(i)
+				a = append(a, uint64(p.Loop(i).NumVertices()), b2u(p.Loop(i).IsHole()), uint64(uint32(pa)), b2u(ok), uint64(p.LastDescendant(i)))
+			}
+			for i := 0; i < p.NumEdges() && i < 6; i++ {
+				e := p.Edge(i)
+				a = append(a, math.Float64bits(e.V0.X)^math.Float64bits(e.V1.Y))
+			}
+			return a
+		default:
+			ix := o.Index
+			a := Ans{uint64(ix.Len()), uint64(ix.NumEdges()), uint64(ix.NumEdgesUpTo(20))}
+			for i := int32(0); i < int32(ix.Len())+2 && i < 8; i++ {
+				sh := ix.Shape(i)
+				if sh == nil {
+					a = append(a, 7)
+					continue
+				}
+				a = append(a, uint64(sh.NumEdges()), uint64(sh.Dimension()), b2u(sh.ReferencePoint().Contained), uint64(sh.NumChains()))
+			}
+			return a
+		}
+	case QBounds:
+		var rb s2.Rect
+		var cb s2.Cap
+		var cu []s2.CellID
+		if o.Kind == OLoop {
+			rb, cb, cu = o.Loop.RectBound(), o.Loop.CapBound(), o.Loop.CellUnionBound()
+		} else {
+			rb, cb, cu = o.Poly.RectBound(), o.Poly.CapBound(), o.Poly.CellUnionBound()
+		}
+		a := Ans{math.Float64bits(rb.Lat.Lo), math.Float64bits(rb.Lat.Hi), math.Float64bits(rb.Lng.Lo), math.Float64bits(rb.Lng.Hi), math.Float64bits(float64(cb.Radius())), uint64(len(cu))}
+		for _, c := range cu {
+			a = append(a, uint64(c))
+		}
+		return a
 	case QLocate:
 		it := o.index().Iterator()
 		found := it.LocatePoint(op.P)
@@ -498,8 +592,10 @@ func drawQuery(g *gen.G, descs []*ObjDesc, allowRel bool) Op {
 			op.Kind = QContainsCell
 		case k < 6:
 			op.Kind = QIntersectsCell
+		case k < 7:
+			op.Kind = QMisc
 		case k < 8:
-			op.Kind = QContainsPoint
+			op.Kind = QBounds
 		default:
 			// relation with another object of the same kind, if any
 			op.Kind = QContainsPoint
@@ -551,6 +647,9 @@ func drawQuery(g *gen.G, descs []*ObjDesc, allowRel bool) Op {
 			op.Kind = QLocate
 		default:
 			op.Kind = QIsFreshNumEdges
+			if t.Chance(500) {
+				op.Kind = QMisc
+			}
 		}
 		if op.Kind >= QFindEdges && op.Kind <= QIsConsDist {
 			op.EQ = drawEQOpts(g)
